@@ -39,6 +39,9 @@ CFG = {
         "Swat4.C05.keepalive_foreign_instance_rejected",
         "Swat4.C05.removal_foreign_instance_rejected",
         "Swat4.C05.instances_change_only_for_presented_id",
+        "Swat4.C05.reporter_enqueues_only_for_source_ip",
+        "Swat4.C05.dispatch_queue",
+        "Swat4.C05.reporter_keeps_queued",
         "Swat4.C05.parseAddr_ok",
         "Swat4.C05.ipv6_source_touches_no_server",
         "Swat4.C05.ipv6_source_changes_nothing",
@@ -77,7 +80,7 @@ CFG = {
         "miniredis as the meaning of the Redis commands; world.Dump as the canonical observation of the keyspace",
     ],
     "manifest": {
-        "text": "Lean theorem reporter_touches_only_source_ip: for every state satisfying the store invariant, every payload and source, each server row that differs before/after Heartbeat.dispatch has an address with the source IP; proved per repository call (Rep.Safe): report writes addr.New(sourceIP, hostport), renew writes inst.Addr only after the IP check, remove only (sourceIP, hostport); lifted to histories (C05_main, C05_steps, inv_reachable); keepalive/removal with a foreign instance id are rejected with the state unchanged (with a concrete two-party state satisfying all hypotheses of the removal theorem); instances_change_only_for_presented_id: the instance table changes only at the id a heartbeat-type datagram presents - which does NOT exclude that a report from A rebinds an id currently bound to B's server (documented by an example: B's record is untouched, B's next keepalive is rejected until B reports again). IPv6 sources: Heartbeat.dispatch takes the source as a number and cannot express a source with To4() == nil; Heartbeat6.dispatch6 takes connAddr.IP as bytes and mirrors addr.New / To4 / IP.Equal; ipv6_source_touches_no_server / ipv6_source_changes_nothing: for every state and payload a datagram from such a source leaves servers - and instances and the probe queue - exactly as they were (heartbeats and removals are stopped by addr.New before any use case runs, so not even the instance id is rebound); ipv6_keepalive_rejected: a keepalive from such a source is answered err with the state unchanged whatever instance id it presents, including when the low 32 bits of the source equal the bound server's IPv4 address (the owner check compares the stored 4 bytes with To4() == nil, and IP.Equal is false for lengths 4 and 0; witnessed on 2001:db8::1.1.1.1 and ::1.1.1.1 against a server of 1.1.1.1, with ::ffff:1.1.1.1 accepted as 1.1.1.1); dispatch6_non_ipv4: the complete behaviour (challenge/availability answered as from IPv4, everything else err without effect) - the expression the driver used to hard-code; dispatch6_mapped: on a source with an IPv4 form dispatch6 equals dispatch.",
+        "text": "Lean theorem reporter_touches_only_source_ip: for every state satisfying the store invariant, every payload and source, each server row that differs before/after Heartbeat.dispatch has an address with the source IP; proved per repository call (Rep.Safe): report writes addr.New(sourceIP, hostport), renew writes inst.Addr only after the IP check, remove only (sourceIP, hostport); lifted to histories (C05_main, C05_steps, inv_reachable); keepalive/removal with a foreign instance id are rejected with the state unchanged (with a concrete two-party state satisfying all hypotheses of the removal theorem); instances_change_only_for_presented_id: the instance table changes only at the id a heartbeat-type datagram presents - which does NOT exclude that a report from A rebinds an id currently bound to B's server (documented by an example: B's record is untouched, B's next keepalive is rejected until B reports again). reporter_enqueues_only_for_source_ip / dispatch_queue: the probe queue after a datagram is the queue before, or the queue before plus ONE appended port-discovery probe whose address carries the source IP (nothing is removed or reordered), so every probe a datagram enqueues is for a server of its own source IP. IPv6 sources: Heartbeat.dispatch takes the source as a number and cannot express a source with To4() == nil; Heartbeat6.dispatch6 takes connAddr.IP as bytes and mirrors addr.New / To4 / IP.Equal; ipv6_source_touches_no_server / ipv6_source_changes_nothing: for every state and payload a datagram from such a source leaves servers - and instances and the probe queue - exactly as they were (heartbeats and removals are stopped by addr.New before any use case runs, so not even the instance id is rebound); ipv6_keepalive_rejected: a keepalive from such a source is answered err with the state unchanged whatever instance id it presents, including when the low 32 bits of the source equal the bound server's IPv4 address (the owner check compares the stored 4 bytes with To4() == nil, and IP.Equal is false for lengths 4 and 0; witnessed on 2001:db8::1.1.1.1 and ::1.1.1.1 against a server of 1.1.1.1, with ::ffff:1.1.1.1 accepted as 1.1.1.1); dispatch6_non_ipv4: the complete behaviour (challenge/availability answered as from IPv4, everything else err without effect) - the expression the driver used to hard-code; dispatch6_mapped: on a source with an IPv4 form dispatch6 equals dispatch.",
         "level_note": "Trusted: Lean kernel; axioms propext, Quot.sound, Classical.choice; the differential run as evidence that Model/Heartbeat.lean + Model/Heartbeat6.lean + UseCases/Reporter.lean behave like the Go code (full dump after every datagram); generated Facts.lean.",
         "technique": "Lean 4 proof (frame condition per repository call + store invariant, induction over histories) + differential correspondence with a frame oracle on the implementation's dumps",
         "design_ref": "DESIGN.md §5 C05",
